@@ -310,6 +310,70 @@ func vfC18Run(run *vfkit.Run, cs *vfC18Case) {
 		if afterResume {
 			run.Count("half_open_losses_detected_after_resume", 1)
 		}
+	case "outage":
+		// The server is gone for a while (connections refused) and the application - like a StreamManager - retries
+		// from inside the Disconnected handler, while the keepalive interval is far shorter than the outage. The
+		// keepalive of the lost session has nothing to ping during that time and must not bring the process down.
+		up := make(chan struct{}, 4)
+		hold := make(chan struct{})
+		var first *vfPeerConn
+		peer := vfNewPeer(func(pc *vfPeerConn) {
+			if _, err := pc.Negotiate(&vfNeg{Bind: true, ExpectPresence: pc.N == 0}); err != nil {
+				return
+			}
+			go func() {
+				for {
+					if _, err := pc.Next(); err != nil {
+						return
+					}
+				}
+			}()
+			if pc.N == 0 {
+				first = pc
+			}
+			up <- struct{}{}
+			<-hold
+		})
+		defer peer.Stop()
+		defer close(hold)
+		c, obs, err := vfNewClient(vfClientOpt{Addr: peer.Addr(), Insecure: true, Keepalive: iv}, nil)
+		if err != nil {
+			run.Inconclusive("newclient")
+			return
+		}
+		var done int32
+		c.SetHandler(func(e Event) error {
+			obs.onEvent(e)
+			if e.State.state == StateDisconnected && atomic.CompareAndSwapInt32(&done, 0, 1) {
+				for try := 0; try < 400; try++ { // a retry loop without patience: the outage lasts many keepalive intervals
+					if c.Resume() == nil {
+						return nil
+					}
+					time.Sleep(2 * time.Millisecond)
+				}
+			}
+			return nil
+		})
+		if err := c.Connect(); err != nil {
+			run.Inconclusive("connect")
+			return
+		}
+		defer func() { go c.Disconnect() }()
+		<-up
+		peer.CloseListener()
+		first.RST()
+		time.Sleep(time.Duration(cs.K) * iv) // the outage: K keepalive intervals
+		if err := peer.Reopen(); err != nil {
+			run.Inconclusive("reopen-failed")
+			return
+		}
+		select {
+		case <-up:
+		case <-time.After(30 * time.Second):
+			run.Inconclusive("no-session-after-outage")
+			return
+		}
+		run.Count("outages_survived_with_a_short_keepalive", 1)
 	case "ws-half-open":
 		// the same over WebSocket: the server stops reading (so it answers no ping any more) without closing anything.
 		// Only the keepalive can notice - its ping runs into the transport's ping timeout - and it must close the
@@ -702,6 +766,7 @@ func TestVf_C18(t *testing.T) {
 		cases = append(cases, &vfC18Case{Mode: "half-open", Interval: []int{10000, 20000, 40000, 5000}[i%4], K: 4, Variant: "after-resume"})
 		cases = append(cases, &vfC18Case{Mode: "one-keepalive", Interval: []int{50, 100, 200, 20}[i%4], K: 25})
 		cases = append(cases, &vfC18Case{Mode: "ends-during-ping", Interval: []int{2000, 5000, 1000, 10000}[i%4], K: 1})
+		cases = append(cases, &vfC18Case{Mode: "outage", Interval: []int{200, 1000, 500, 2000}[i%4], K: 150})
 		if i == 0 || vfkit.Thorough() && i%10 == 0 {
 			cases = append(cases, &vfC18Case{Mode: "ws-half-open", Interval: 50000, K: 1})
 		}
